@@ -1,5 +1,5 @@
 (* Proofs about Model/Handshake.v (C07). *)
-From Coq Require Import NArith ZArith List Bool Lia.
+From Coq Require Import NArith ZArith List Bool Lia DecimalN.
 From Coq Require String.
 Import String.StringSyntax.
 From AV Require Import Gen.Latin1Tables Gen.HandshakeConsts Model.Handshake Model.HandshakeRun.
@@ -2300,3 +2300,141 @@ Proof.
       cbn [f_count f_conns]. pose proof (n_open_set_gone k _ E). split; [lia|]. intros P. specialize (Hm P). lia. }
   apply G. cbn. split; [reflexivity|]. intros _. apply N.le_0_l.
 Qed.
+
+
+
+(* ========================================================================================== *)
+(* the origin as a triple (scheme, host, port-or-absent)                                       *)
+
+Lemma uint_digits_inj d1 : forall d2, uint_digits d1 = uint_digits d2 -> d1 = d2.
+Proof.
+  induction d1; intros d2 H; destruct d2; cbn in H; try discriminate; try reflexivity;
+    injection H as H; f_equal; auto.
+Qed.
+
+Lemma N_to_uint_inj a b : N.to_uint a = N.to_uint b -> a = b.
+Proof. intros H. rewrite <- (Unsigned.of_to a), <- (Unsigned.of_to b). now rewrite H. Qed.
+
+Lemma dec_of_N_inj a b : dec_of_N a = dec_of_N b -> a = b.
+Proof. unfold dec_of_N. intros H. now apply N_to_uint_inj, uint_digits_inj. Qed.
+
+Lemma uint_digits_chars d : Forall (fun c => 48 <= c <= 57) (uint_digits d).
+Proof. induction d; cbn; constructor; (lia || assumption). Qed.
+
+Lemma dec_of_N_no_minus n r : dec_of_N n <> 45 :: r.
+Proof.
+  intros H. pose proof (uint_digits_chars (N.to_uint n)) as F. unfold dec_of_N in H. rewrite H in F. inversion F; subst. lia.
+Qed.
+
+(* str(int) is injective: different port numbers render differently *)
+Theorem dec_of_Z_inj a b : dec_of_Z a = dec_of_Z b -> a = b.
+Proof.
+  unfold dec_of_Z. destruct a as [|p|p], b as [|q|q]; intros H;
+    try (exfalso; eapply dec_of_N_no_minus; (exact H || (symmetry; exact H)));
+    try (injection H as H); apply dec_of_N_inj in H; cbn in H; congruence.
+Qed.
+
+Lemma dec_of_Z_not_None z : dec_of_Z z <> NONE_S.
+Proof.
+  unfold dec_of_Z, NONE_S. destruct z; intros H.
+  - pose proof (uint_digits_chars (N.to_uint (Z.to_N 0))) as F. unfold dec_of_N in H. rewrite H in F. inversion F; subst. lia.
+  - pose proof (uint_digits_chars (N.to_uint (Z.to_N (Z.pos p)))) as F. unfold dec_of_N in H. rewrite H in F. inversion F; subst. lia.
+  - discriminate.
+Qed.
+
+Definition port_text (p : option Z) : str := match p with Some z => dec_of_Z z | None => NONE_S end.
+
+Lemma port_text_inj p q : port_text p = port_text q -> p = q.
+Proof.
+  destruct p as [a|], q as [b|]; cbn; intros H.
+  - f_equal. now apply dec_of_Z_inj.
+  - exfalso. now apply (dec_of_Z_not_None a).
+  - exfalso. now apply (dec_of_Z_not_None b).
+  - reflexivity.
+Qed.
+
+Lemma port_text_no_colon p : ~ In 58 (port_text p).
+Proof.
+  destruct p as [z|]; cbn.
+  - unfold dec_of_Z. destruct z; intros I.
+    + pose proof (uint_digits_chars (N.to_uint (Z.to_N 0))) as F. rewrite Forall_forall in F. specialize (F _ I). lia.
+    + pose proof (uint_digits_chars (N.to_uint (Z.to_N (Z.pos p)))) as F. rewrite Forall_forall in F. specialize (F _ I). lia.
+    + destruct I as [I|I]; [discriminate|]. pose proof (uint_digits_chars (N.to_uint (N.pos p))) as F. rewrite Forall_forall in F. specialize (F _ I). lia.
+  - unfold NONE_S. cbn. intuition discriminate.
+Qed.
+
+Lemma port_text_no_star p : ~ In 42 (port_text p).
+Proof.
+  destruct p as [z|]; cbn.
+  - unfold dec_of_Z. destruct z; intros I.
+    + pose proof (uint_digits_chars (N.to_uint (Z.to_N 0))) as F. rewrite Forall_forall in F. specialize (F _ I). lia.
+    + pose proof (uint_digits_chars (N.to_uint (Z.to_N (Z.pos p)))) as F. rewrite Forall_forall in F. specialize (F _ I). lia.
+    + destruct I as [I|I]; [discriminate|]. pose proof (uint_digits_chars (N.to_uint (N.pos p))) as F. rewrite Forall_forall in F. specialize (F _ I). lia.
+  - unfold NONE_S. cbn. intuition discriminate.
+Qed.
+
+Lemma origin_header_shape sc h p : origin_header sc h p = sc ++ 58 :: [47; 47] ++ h ++ 58 :: port_text p.
+Proof. unfold origin_header, port_text. destruct p; reflexivity. Qed.
+
+(* same scheme and host: the rendered origins differ as soon as the ports differ (explicit 0, explicit default, absent ...) *)
+Theorem origin_header_port_inj sc h p q : origin_header sc h p = origin_header sc h q -> p = q.
+Proof.
+  rewrite !origin_header_shape. intros H. apply app_inv_head in H. injection H as H.
+  apply app_inv_head in H. injection H as H. now apply port_text_inj.
+Qed.
+
+(* the rendering determines the whole triple (schemes and host names without ':', i.e. not bracket-less IPv6 literals) *)
+Theorem origin_header_inj sc h p sc' h' p' :
+  ~ In 58 sc -> ~ In 58 sc' -> ~ In 58 h -> ~ In 58 h' ->
+  origin_header sc h p = origin_header sc' h' p' -> sc = sc' /\ h = h' /\ p = p'.
+Proof.
+  intros N1 N2 N3 N4. rewrite !origin_header_shape. intros H.
+  assert (C : cut_first 58 (sc ++ 58 :: [47; 47] ++ h ++ 58 :: port_text p) = cut_first 58 (sc' ++ 58 :: [47; 47] ++ h' ++ 58 :: port_text p')) by now rewrite H.
+  rewrite !cut_first_app in C by assumption. injection C as -> C.
+  assert (C2 : cut_first 58 (h ++ 58 :: port_text p) = cut_first 58 (h' ++ 58 :: port_text p')) by now rewrite C.
+  rewrite !cut_first_app in C2 by assumption. injection C2 as -> C2. repeat split. now apply port_text_inj.
+Qed.
+
+(* a star-free allow-list entry that spells out (scheme', host', port') admits exactly that triple: the port is compared too,
+   an explicit port never equals another one and never equals "absent" *)
+Theorem same_origin_literal_triple sc h p sc' h' p' :
+  ~ In 58 sc -> ~ In 58 sc' -> ~ In 58 h -> ~ In 58 h' -> ~ In 42 sc' -> ~ In 42 h' ->
+  (is_same_origin (OTriple sc h p) [origin_header sc' h' p'] = true <-> sc = sc' /\ h = h' /\ p = p').
+Proof.
+  intros N1 N2 N3 N4 S1 S2. rewrite is_same_origin_spec. split.
+  - intros (pat & [<-|[]] & W). apply wild_spec_no_star in W.
+    + now apply origin_header_inj.
+    + rewrite origin_header_shape. intros I. apply in_app_or in I as [I|I]; [contradiction|].
+      destruct I as [I|I]; [discriminate|]. cbn [app] in I. destruct I as [I|[I|I]]; try discriminate.
+      apply in_app_or in I as [I|I]; [contradiction|]. destruct I as [I|I]; [discriminate|]. now apply (port_text_no_star p').
+  - intros (-> & -> & ->). exists (origin_header sc' h' p'). split; [now left|].
+    assert (G : forall s, ~ In 42 s -> wild_spec s s).
+    { induction s as [|c s IH]; intros Hs; [constructor|]. constructor; [intros ->; apply Hs; now left|]. apply IH. intros I. apply Hs. now right. }
+    apply G. rewrite origin_header_shape. intros I. apply in_app_or in I as [I|I]; [contradiction|].
+    destruct I as [I|I]; [discriminate|]. cbn [app] in I. destruct I as [I|[I|I]]; try discriminate.
+    apply in_app_or in I as [I|I]; [contradiction|]. destruct I as [I|I]; [discriminate|]. now apply (port_text_no_star p').
+Qed.
+
+(* _url_to_origin as a function of what urlsplit reports: the port component is the explicit port verbatim - also 0 -,
+   the scheme's default only when the port is ABSENT, and nothing at all when urlsplit refuses the port *)
+Theorem url_to_origin_triple us url sc h p :
+  url_to_origin us url = Some (OTriple sc h p) <->
+  lower url <> NULL_S /\
+  exists sc0 pr, us url = UsOk sc0 (Some h) pr /\ sc = lower sc0 /\ sc <> FILE_S /\ h <> [] /\
+    ((exists q, pr = PortSome q /\ p = Some q) \/ (pr = PortNone /\ p = default_port sc)).
+Proof.
+  unfold url_to_origin. split.
+  - destruct (str_eqb (lower url) NULL_S) eqn:E1; [discriminate|]. apply str_eqb_neq in E1.
+    destruct (us url) as [sc0 hn pr|] eqn:U; [|discriminate].
+    destruct (str_eqb (lower sc0) FILE_S) eqn:E2; [discriminate|]. apply str_eqb_neq in E2.
+    destruct pr as [|q|]; cbn [origin_port]; try discriminate; destruct hn as [[|c hh]|]; try discriminate; intros H; injection H as <- <- <-;
+      (split; [assumption|]); do 2 eexists; (split; [reflexivity|]); repeat split; try assumption; try discriminate.
+    + now right.
+    + left. now exists q.
+  - intros (E1 & sc0 & pr & U & -> & E2 & Hh & Hp). apply str_eqb_neq in E1, E2. rewrite E1, U, E2.
+    destruct Hp as [(q & -> & ->)|[-> ->]]; cbn [origin_port]; destruct h; try contradiction; reflexivity.
+Qed.
+
+Theorem url_to_origin_none_on_bad_port us url sc0 hn : lower url <> NULL_S -> us url = UsOk sc0 hn PortRaises -> lower sc0 <> FILE_S ->
+  url_to_origin us url = None.
+Proof. intros E1 U E2. unfold url_to_origin. apply str_eqb_neq in E1, E2. now rewrite E1, U, E2. Qed.
